@@ -51,6 +51,8 @@ def run(model: Model, rep: Report) -> None:
     from .c07 import tounicode_ranges_rule
 
     tounicode_ranges_rule(model, rep, "C06-R7")
+    encoding_table_rule(model, rep, "C06-R8")
+    init_order_rule(model, rep, "C06-R9", ["pdfminer.pdffont.PDFType1Font", "pdfminer.pdffont.PDFTrueTypeFont", "pdfminer.pdffont.PDFType3Font", "pdfminer.pdffont.PDFCIDFont", "pdfminer.pdffont.PDFSimpleFont"])
     # ---------------------------------------------------------------- R2
     r2 = rep.rule("C06-R2", "TABLE", "WinAnsi/MacRoman columns agree with Python's cp1252/mac_roman except the documented codes; columns are functions of the code; names resolve", 6)
     em = model.module("pdfminer.latin_enc")
@@ -177,3 +179,70 @@ def run(model: Model, rep: Report) -> None:
     r6.check("self.default_width=num_value(descriptor.get('MissingWidth',0))" in s10 and "self.hscale=self.vscale=0.001" in s10, site(pf), pf.qualname, "the default width is /MissingWidth (0 if absent); glyph space is 1/1000 of text space", why="changed")
     fm = model.func(F + "FontMetricsDB.get_metrics")
     r6.check("return FONT_METRICS[fontname]" in unparse(fm.node), site(fm), fm.qualname, "standard-14 metrics are looked up by font name", why="changed")
+
+
+def encoding_table_rule(model: Model, rep: Report, rid: str) -> None:
+    """A font's code -> text table may be the shared table of its base encoding (EncodingDB.get_encoding copies only when
+    there are Differences): fonts rebind the attribute, they never write into the table."""
+    r = rep.rule(rid, "ALIAS", "fonts never write into their encoding table in place (it may be the table shared by every font of that base encoding)", 3)
+    MUT = {"update", "setdefault", "pop", "popitem", "clear", "__setitem__", "__delitem__"}
+    binds = 0
+    for q, f in sorted(model.funcs.items()):
+        if not q.startswith("pdfminer.pdffont.") or isinstance(f.node, ast.Lambda):
+            continue
+        for n in walk_no_nested(f.node):
+            bad = None
+            if isinstance(n, (ast.Assign, ast.AugAssign)):
+                for t in n.targets if isinstance(n, ast.Assign) else [n.target]:
+                    if isinstance(t, ast.Subscript) and isinstance(t.value, ast.Attribute) and t.value.attr == "cid2unicode":
+                        bad = n
+                    elif isinstance(t, ast.Attribute) and t.attr == "cid2unicode":
+                        binds += 1
+                        r.ok(site(f, n), q, f"rebinding: {unparse(n)[:70]}")
+            elif isinstance(n, ast.Delete):
+                if any(isinstance(t, ast.Subscript) and isinstance(t.value, ast.Attribute) and t.value.attr == "cid2unicode" for t in n.targets):
+                    bad = n
+            elif isinstance(n, ast.Call) and isinstance(n.func, ast.Attribute) and n.func.attr in MUT and isinstance(n.func.value, ast.Attribute) and n.func.value.attr == "cid2unicode":
+                bad = n
+            if bad is not None:
+                r.violation(site(f, bad), q, unparse(bad)[:80], "writes into the font's encoding table in place: for a font without Differences this is the process-wide table of the base encoding, so the entries leak into every later font (and document) using that encoding")
+    if binds == 0:
+        raise AnchorMissing("no assignment to .cid2unicode found in pdffont")
+
+
+def init_order_rule(model: Model, rep: Report, rid: str, classes) -> None:
+    """A field that the base-class initialiser (transitively) assigns must be assigned by the subclass after the base call -
+    otherwise the base call overwrites it (Type3: hscale/vscale from the FontMatrix vs the 0.001 default of PDFFont)."""
+    from ..util import self_fields_written
+
+    r = rep.rule(rid, "ORDER", "subclass initialisers assign the fields their base initialiser also assigns only after calling it", 2)
+
+    def base_writes(fq: str, seen: Set[str]) -> Set[str]:
+        if fq in seen or fq not in model.funcs:
+            return set()
+        seen.add(fq)
+        f = model.funcs[fq]
+        w = set(self_fields_written(f))
+        for c in walk_no_nested(f.node):
+            if isinstance(c, ast.Call) and isinstance(c.func, ast.Attribute) and c.func.attr == "__init__":
+                tgt = model.resolve_expr(f.module, c.func, f.cls)
+                if tgt in model.funcs:
+                    w |= base_writes(tgt, seen)
+        return w
+
+    for cq in classes:
+        f = model.func(cq + ".__init__")
+        calls = [c for c in walk_no_nested(f.node) if isinstance(c, ast.Call) and isinstance(c.func, ast.Attribute) and c.func.attr == "__init__" and model.resolve_expr(f.module, c.func, f.cls) in model.funcs]
+        if not calls:
+            continue
+        order = {id(n): i for i, n in enumerate(walk_no_nested(f.node))}
+        first_call = min(calls, key=lambda c: order[id(c)])
+        bw: Set[str] = set()
+        for c in calls:
+            bw |= base_writes(model.resolve_expr(f.module, c.func, f.cls), set())
+        early = []
+        for fld, stmts in self_fields_written(f).items():
+            for st in stmts:
+                if fld in bw and order.get(id(st), 10**9) < order[id(first_call)]:
+                    early.append((fld, st))
+        r.check(not early, site(f, early[0][1]) if early else site(f), f.qualname, f"{cq.split('.')[-1]}: fields also set by the base initialiser are set after `{unparse(first_call.func)}`", why=f"`self.{early[0][0]}` is assigned before the base initialiser, which assigns it again: the subclass value is lost" if early else "")
